@@ -290,6 +290,10 @@ func (p vfPkt) bodyAs(as byte) []byte {
 	return b
 }
 
+// c19InitExts: extension pairs the raw driver puts into its INIT packet (what the client says about itself does not
+// change what the server is configured to advertise)
+var c19InitExts [][2]string
+
 // c19VersionBytes connects a raw driver to a fresh server and returns the VERSION reply body.
 func c19VersionBytes(u *vfUnit, kind vfKind) []byte { return c19VersionBytesLate(u, kind, nil) }
 
@@ -304,7 +308,11 @@ func c19VersionBytesLate(u *vfUnit, kind vfKind, late func()) []byte {
 		u.Inconclusive("connect: %v", err)
 		return nil
 	}
-	if err := rs.R.SendPkts(vfPkt{Type: rfInit, Version: 3}); err != nil {
+	init := vfPkt{Type: rfInit, Version: 3}
+	if c19InitExts != nil {
+		init.Exts = c19InitExts
+	}
+	if err := rs.R.SendPkts(init); err != nil {
 		u.Violation("version-send", err.Error(), nil)
 	}
 	var body []byte
@@ -353,6 +361,20 @@ func c19Config(u *vfUnit) {
 			got := c19VersionBytes(u, kind)
 			if !bytes.Equal(got, wantBody) {
 				u.Violation("version-bytes:"+kind.String(), fmt.Sprintf("configured %v: %s sent VERSION %x, expected %x", names, kind, vfTrimB(got, 200), vfTrimB(wantBody, 200)), map[string]any{"configured": names})
+			}
+			// an INIT that names extensions itself, with other data than the server's, with the same, and unknown ones
+			for _, ie := range [][][2]string{
+				{{"statvfs@openssh.com", "1"}, {"hardlink@openssh.com", "2"}, {"posix-rename@openssh.com", ""}},
+				{{"statvfs@openssh.com", "2"}, {"hardlink@openssh.com", "1"}},
+				{{"fsync@openssh.com", "1"}, {"vendor@example.com", "9"}},
+			} {
+				c19InitExts = ie
+				got = c19VersionBytes(u, kind)
+				c19InitExts = nil
+				u.Count("inits_naming_extensions", 1)
+				if !bytes.Equal(got, wantBody) {
+					u.Violation("version-bytes-after-init-with-extensions:"+kind.String(), fmt.Sprintf("configured %v, INIT carrying %v: %s sent VERSION %x, expected %x", names, ie, kind, vfTrimB(got, 200), vfTrimB(wantBody, 200)), map[string]any{"configured": names})
+				}
 			}
 			// the same list configured after the server value was constructed, before its session starts: what
 			// counts is what is configured when the handshake happens
